@@ -3,6 +3,9 @@ package main
 import (
 	"fmt"
 	"sort"
+	"strings"
+	"sync/atomic"
+	"time"
 
 	"github.com/cybergarage/go-redis/redis"
 	"github.com/cybergarage/go-redis/redis/auth"
@@ -68,6 +71,13 @@ type spanInfo struct {
 
 // checkTrace replays the merged event log against the trace specification.
 func checkTrace(spans []double.SpanEvent, snap sconn.Snapshot, returnedOK bool) (clause, detail string, stats map[string]int64) {
+	return checkTraceOf(spans, snap, returnedOK, false)
+}
+
+// checkTraceOf with concurrent=true judges the merged log of SEVERAL connections: roots of different connections
+// overlap legitimately, so "no new root while another is open" is not asked (the tree rules are: every span
+// finished exactly once, children inside their parents, the shape of every root, nothing open at the end).
+func checkTraceOf(spans []double.SpanEvent, snap sconn.Snapshot, returnedOK bool, concurrent bool) (clause, detail string, stats map[string]int64) {
 	stats = map[string]int64{}
 	type ev struct {
 		seq  uint64
@@ -107,7 +117,7 @@ func checkTrace(spans []double.SpanEvent, snap sconn.Snapshot, returnedOK bool) 
 					rootsStarted++
 					// a new root must not start while another root is open
 					for id := range open {
-						if info[id].parent == 0 {
+						if info[id].parent == 0 && !concurrent {
 							return "no span is left open when the connection moves on to the next request", fmt.Sprintf("%s starts while root %d is still open", s, id), stats
 						}
 					}
@@ -197,7 +207,110 @@ func openNames(open map[int]bool, info map[int]*spanInfo) []string {
 	return out
 }
 
+// c20contention: two connections on one server and one tracer. Connection A's handler is held inside a command
+// (the command lock is taken); connection B's requests arrive meanwhile and have to wait for the lock; then A is
+// let go. Whatever the framework does while a request waits for its turn, the spans of both connections obey
+// the tree rules.
+func c20contention(idx int) run.Result {
+	var res run.Result
+	res.Idx = idx
+	_, reqs, _, _ := c20get(idx)
+	res.Classes = []string{"two-connections-contending-for-the-command-lock"}
+	res.NonTrivial = true
+	res.Key = gen.Hash64([]byte(fmt.Sprint("contention", reqStrings(reqs))))
+	rec := double.NewRec()
+	var armed atomic.Bool
+	parked := make(chan struct{}, 4)
+	release := make(chan struct{})
+	rec.Yield = func() {
+		if armed.CompareAndSwap(true, false) {
+			parked <- struct{}{}
+			<-release
+		}
+	}
+	srv := newServer(rec)
+	tr := double.NewSpanRecorder()
+	srv.SetTracer(tr)
+	a, b := sconn.New(sconn.Script{End: sconn.Hold}), sconn.New(sconn.Script{End: sconn.Hold})
+	waitA, waitB := double.Start(srv, a, nil), double.Start(srv, b, nil)
+	released := false
+	finish := func() (double.ServeResult, double.ServeResult) {
+		if !released {
+			released = true
+			close(release)
+		}
+		a.End(sconn.EOF)
+		b.End(sconn.EOF)
+		return waitA(serveWait), waitB(serveWait)
+	}
+	armed.Store(true)
+	a.Feed(resp.Encode(resp.Cmd("GET", "held")))
+	select {
+	case <-parked:
+	case <-time.After(serveWait):
+		finish()
+		res.Inconclusive = "watchdog"
+		return res
+	}
+	// B's requests arrive while A holds the command lock
+	for _, q := range reqs {
+		b.Feed(resp.Encode(q))
+	}
+	// (best effort, no verdict) give B's goroutine the chance to reach the lock before A lets go
+	waiting := false
+	for i := 0; i < 200 && !waiting; i++ {
+		_, dump := serverGoroutines()
+		for _, g := range strings.Split(dump, "\n\n") {
+			if strings.Contains(g, "sync.(*Mutex).Lock") && strings.Contains(g, "(*Server).receive") {
+				waiting = true
+			}
+		}
+		if !waiting {
+			time.Sleep(time.Millisecond)
+		}
+	}
+	if waiting {
+		res.Count("requests_that_waited_for_the_command_lock", 1)
+	}
+	released = true
+	close(release)
+	a.Feed(resp.Encode(resp.Cmd("PING")))
+	ra, rb := finish()
+	spans := tr.Snapshot()
+	desc := func() any {
+		evs := make([]string, 0, len(spans))
+		for i, s := range spans {
+			if i >= 80 {
+				evs = append(evs, "…")
+				break
+			}
+			evs = append(evs, s.String())
+		}
+		return map[string]any{"connection_A": []string{"GET held (handler held inside the command)", "PING"}, "connection_B": reqStrings(reqs), "B_waited_for_the_lock": waiting, "span_events": evs}
+	}
+	if ra.TimedOut || rb.TimedOut {
+		res.Inconclusive = "watchdog"
+		return res
+	}
+	if ra.Panic != "" || rb.Panic != "" {
+		res.Violate("C20:panic:"+panicFrame(ra.Stack+rb.Stack), "the connection loop completes", ra.Panic+rb.Panic, desc())
+		return res
+	}
+	clause, detail, stats := checkTraceOf(spans, sconn.Snapshot{}, ra.Returned && rb.Returned, true)
+	for k, v := range stats {
+		res.Count(k, v)
+	}
+	res.Count("span_events", int64(len(spans)))
+	if clause != "" {
+		res.Violate("C20:"+clause+":two-connections", clause, detail, desc())
+	}
+	return res
+}
+
 func c20run(idx int) run.Result {
+	if idx%20 == 7 {
+		return c20contention(idx)
+	}
 	var res run.Result
 	res.Idx = idx
 	c, reqs, stream, ends := c20get(idx)
@@ -337,7 +450,7 @@ func init() {
 	run.Register(&run.Prop{
 		ID: "C20", Level: "exploration",
 		Rule: func(tier string) string {
-			return "case = one pipeline as in C03/C10 (every command rotating in position 0; valid, ill-formed, surplus, unknown, composed commands, QUIT, scripted handler errors, and in every sixth case a handler that returns a nil message without an error for some calls), optionally on a password-protected server with AUTH inserted at a seeded position (requests before it are unauthorized), with a non-array request inserted, ending in: EOF at the end, EOF or reset at a seeded byte offset inside the stream, a malformed frame, a failing reply write (the k-th write fails, optionally after a few bytes), or a close from the SERVER side while the connection's goroutine is alive (the registry's Close or Close on the *Conn from Conns(), either while the connection waits for its next request or from inside the handler of a seeded call); delivered whole, per request, 1-byte or random k-way. A recording tracer.Tracer (whose contexts are the library's own common.NewSpanContextWith) is installed with SetTracer. The merged log of span, would-block and write events is checked online against the trace specification: finish refers to an open span, never twice; a child starts under an open parent and all children finish before the parent; at a would-block read only the waiting root and its parse child are open; a new root never starts while another is open; each reply write lies inside exactly one root and its response child; a finished root has one parse child, <=1 command child and <=1 response child; nothing is open when the loop returns. non-trivial = error outcome, composed command, QUIT, password, or an ending other than clean EOF"
+			return "case = one pipeline as in C03/C10 (every command rotating in position 0; valid, ill-formed, surplus, unknown, composed commands, QUIT, scripted handler errors, and in every sixth case a handler that returns a nil message without an error for some calls), optionally on a password-protected server with AUTH inserted at a seeded position (requests before it are unauthorized), with a non-array request inserted, ending in: EOF at the end, EOF or reset at a seeded byte offset inside the stream, a malformed frame, a failing reply write (the k-th write fails, optionally after a few bytes), or a close from the SERVER side while the connection's goroutine is alive (the registry's Close or Close on the *Conn from Conns(), either while the connection waits for its next request or from inside the handler of a seeded call); delivered whole, per request, 1-byte or random k-way. Every twentieth case instead runs TWO connections on one server and tracer: the handler of the first is held inside a command (command lock taken) while the requests of the second arrive and wait for the lock; the merged span log must obey the tree rules. A recording tracer.Tracer (whose contexts are the library's own common.NewSpanContextWith) is installed with SetTracer. The merged log of span, would-block and write events is checked online against the trace specification: finish refers to an open span, never twice; a child starts under an open parent and all children finish before the parent; at a would-block read only the waiting root and its parse child are open; a new root never starts while another is open; each reply write lies inside exactly one root and its response child; a finished root has one parse child, <=1 command child and <=1 response child; nothing is open when the loop returns. non-trivial = error outcome, composed command, QUIT, password, or an ending other than clean EOF"
 		},
 		Assumptions: []string{"handlers do not panic (a panic inside a command is outside the statement's list of outcomes)"},
 		Setup: func(tier string, seed uint64) int {
